@@ -32,7 +32,7 @@ def C04(tier):
 
 
 def C05(tier):
-    return _count('C05', ['C05'], ['coalitions-checked'], tier, withdrawn=True)
+    return _count('C05', ['C05'], ['coalitions-checked'], tier, withdrawn=True, more=1)
 
 
 def C09(tier):
